@@ -7,6 +7,7 @@ import (
 	"net"
 	"os"
 	"reflect"
+	"sync"
 	"time"
 
 	"github.com/bluenviron/gomavlib/v3/pkg/dialect"
@@ -245,17 +246,30 @@ func cmdWLink(o opts) {
 		if thorough {
 			links = 24
 		}
+		// the links share one dialect (as the channels of a node do) and write at the same time, each from its own
+		// goroutine: items are drawn first, then all links of a group of four run together
+		var lwg sync.WaitGroup
 		for l := 0; l < links; l++ {
 			v := 1 + l%2
 			cfg := WCfg{V: v, Sys: 1 + r.Intn(255), Comp: []int{0, 1, 7, 255}[r.Intn(4)], Key: B{}, Link: 0}
 			impl := []string{"streamwriter", "framewriter"}[(l/2)%2]
+			tag, items := "long", []witem(nil)
 			if l%8 == 5 { // a short keyed link: signatures cost the monitor SHA-256 per frame
 				cfg.V, cfg.Key, cfg.Link = 2, key1, r.Intn(256)
-				runLink(rec, impl, cfg, drw, dl, genItems(60, 2, true), "keyed")
-				continue
+				tag, items = "keyed", genItems(60, 2, true)
+			} else {
+				items = genItems(n, v, l%4 != 0)
 			}
-			runLink(rec, impl, cfg, drw, dl, genItems(n, v, l%4 != 0), "long")
+			lwg.Add(1)
+			go func() {
+				defer lwg.Done()
+				runLink(rec, impl, cfg, drw, dl, items, tag)
+			}()
+			if l%4 == 3 {
+				lwg.Wait()
+			}
 		}
+		lwg.Wait()
 		// short histories with refusals at every position
 		for pos := 0; pos < 6; pos++ {
 			for _, v := range []int{1, 2} {
